@@ -291,6 +291,8 @@ def select__map_for_each(self: XPathFunction, context: ta.ContextType = None) \
 
     map_: XPathMap = self.get_argument(context, required=True, cls=XPathMap)
     func: XPathFunction = self.get_argument(context, index=1, required=True, cls=XPathFunction)
+    if func.arity != 2:
+        raise self.error('XPTY0004', "function arity must be 2")
 
     for k, v in map_.items(context):
         result = func(k, v, context=context)
@@ -530,6 +532,8 @@ def evaluate__array_for_each(self: XPathFunction, context: ta.ContextType = None
 
     array_: XPathArray = self.get_argument(context, required=True, cls=XPathArray)
     func: XPathFunction = self.get_argument(context, index=1, required=True, cls=XPathFunction)
+    if func.arity != 1:
+        raise self.error('XPTY0004', "function arity must be 1")
     items = array_.items(context)
     return XPathArray(self.parser, items=map(lambda x: func(x, context=context), items))
 
@@ -545,6 +549,8 @@ def evaluate__array_for_each_pair(self: XPathFunction, context: ta.ContextType =
     array1: XPathArray = self.get_argument(context, required=True, cls=XPathArray)
     array2: XPathArray = self.get_argument(context, index=1, required=True, cls=XPathArray)
     func: XPathFunction = self.get_argument(context, index=2, required=True, cls=XPathFunction)
+    if func.arity != 2:
+        raise self.error('XPTY0004', "function arity must be 2")
     items = zip(array1.items(context), array2.items(context))
     return XPathArray(self.parser, items=map(lambda x: func(*x, context=context), items))
 
@@ -558,6 +564,8 @@ def evaluate__array_filter(self: XPathFunction, context: ta.ContextType = None) 
 
     array_: XPathArray = self.get_argument(context, required=True, cls=XPathArray)
     func: XPathFunction = self.get_argument(context, index=1, required=True, cls=XPathFunction)
+    if func.arity != 1:
+        raise self.error('XPTY0004', "function arity must be 1")
     items = array_.items(context)
 
     def filter_function(x: ta.FunctionArgType) -> bool:
